@@ -54,7 +54,7 @@ def base_eff(base):
 class Check(DiffCheck):
     id = 'C20'
     coq_dirs = ['C20']
-    coq_targets = ['C20/C20_Proofs.vo']
+    coq_targets = ['C20/C20_Proofs.vo', 'C20/C20_Compose.vo']
     properties_v = 'C20/C20_Properties.v'
     extract_v = 'C20/C20_Extract.v'
     runner_ml = 'ocaml/C20_run.ml'
